@@ -521,7 +521,12 @@ pub fn gen_wop(rng: &mut Rng, tm: &Tm, root_is_limit: bool) -> J {
     match rng.weighted(&[10, 6, 4, 5, 4, 3, 3, 3, 2]) {
         0 => put_typed(rng),
         1 => J::obj().set("op", "put_slice").set("seed", rng.next_u64()).set("n", fits(rng, over)),
-        2 => J::obj().set("op", "put_bytes").set("val", rng.below(256)).set("n", fits(rng, over)),
+        2 => {
+            // a growable target has room for (i|u)size::MAX - len bytes: a count just above that
+            // cannot fit either (no byte slice of that size exists, so only put_bytes can ask for it)
+            let n = if over && rem >= (1 << 40) && rem <= usize::MAX - 4 { rem + rng.range(1, 4) } else { fits(rng, over) };
+            J::obj().set("op", "put_bytes").set("val", rng.below(256)).set("n", n)
+        }
         3 => {
             let want = fits(rng, over).min(300);
             // a source nest of roughly that size
